@@ -1,7 +1,7 @@
 (* C17 - Node-label operations agree with their bit-string meaning.
    Property theorems only; every proof is [exact <lemma>]. *)
 From Coq Require Import List Bool NArith.
-From Akd Require Import ElemSet ElemSetFacts ContainsPrefix InsertRefine BitsLabel.
+From Akd Require Import ElemSet ElemSetFacts ContainsPrefix InsertRefine ContainsPrefixSorted BitsLabel.
 From Akd Require Import Bits NodeLabel NodeLabelFacts.
 Import ListNotations.
 Open Scope N_scope.
@@ -148,6 +148,45 @@ Proof.
       * vm_compute. reflexivity.
       * exfalso. cbn [length] in Hn2. do 4 apply PeanoNat.Nat.succ_lt_mono in Hn2. inversion Hn2.
     + split; vm_compute; reflexivity.
+Qed.
+
+(* ... and on the sets the code builds - sorted, canonical labels of one length - with a canonical
+   prefix not longer than the elements the shape is a theorem: the comparator of the code is
+   lex_cmp (first |p| bits of the element) p (`cpf_is_key`), monotone along a slice sorted by bit
+   strings, and the search is complete for every monotone comparator (the toolchain's documented
+   precondition).  Hence the two representations answer alike. *)
+Theorem C17_search_complete_monotone : forall (A : Type) (f : A -> comparison) d l,
+  mono (map f l) -> (exists x, In x l /\ f x = Eq) -> fst (binary_search_by f d l) = true.
+Proof. exact @binary_search_complete_mono. Qed.
+Print Assumptions C17_search_complete_monotone.
+
+Theorem C17_contains_prefix_forms_agree : forall p l,
+  WF p -> canonical p = true -> elabs_ok l -> sorted_bits l -> same_len l ->
+  (forall x, In x l -> llen p <= llen (e_label x)) ->
+  eset_contains_prefix (BinarySearchable l) p = eset_contains_prefix (Unsorted l) p.
+Proof. exact contains_prefix_sorted_eq_unsorted. Qed.
+Print Assumptions C17_contains_prefix_forms_agree.
+
+Example C17_forms_agree_hyp_sat :
+  let e b := El (NL (b :: zeros 31) 8) [] in
+  let l := [e 16; e 83; e 95; e 128] in let p := NL (80 :: zeros 31) 4 in
+  WF p /\ canonical p = true /\ elabs_ok l /\ sorted_bits l /\ same_len l /\
+  (forall x, In x l -> llen p <= llen (e_label x)) /\
+  eset_contains_prefix (Unsorted l) p = true.
+Proof.
+  cbv zeta. split; [vm_compute; reflexivity|]. split; [vm_compute; reflexivity|]. split.
+  { intros x Hx. cbn [In] in Hx.
+    destruct Hx as [E|[E|[E|[E|[]]]]]; subst x; split; vm_compute; reflexivity. }
+  split.
+  { repeat (constructor; [intros y Hy; cbn [In] in Hy;
+      repeat (destruct Hy as [Hy|Hy]; [subst y; vm_compute; reflexivity|]); destruct Hy|]).
+    constructor. }
+  split.
+  { exists 8. intros x Hx. cbn [In] in Hx.
+    destruct Hx as [E|[E|[E|[E|[]]]]]; subst x; reflexivity. }
+  split; [|vm_compute; reflexivity].
+  intros x Hx. cbn [In] in Hx.
+  destruct Hx as [E|[E|[E|[E|[]]]]]; subst x; vm_compute; discriminate.
 Qed.
 
 Theorem C17_bits_roundtrip : (forall bs, (length bs <= 256)%nat -> bits_of (nl_of_bits bs) = bs) /\
